@@ -75,6 +75,21 @@ package main
 // that is not delivered, or a blocked signal handler that parks the server's read loop, shows as
 // Executes that never return.
 //
+// For the sessions over the fixed plugin (single, deterministic failures) the comparison of errors is
+// textual: the text of the in-process CallStep error must be a substring of the error Execute
+// returns. The `pattern` stream therefore also rejects values, property names and step IDs that
+// contain `%` (`%`, `%d`, `%s%s`, `100%`, `%!`, `%%`, `20% off`, an unparsable integer "10%"): a text
+// that is re-used as a format string on its way arrives rewritten.
+//
+// The `init` stream (every run): step "istep" has a per-run initializer that takes a few
+// milliseconds and keeps the run's release in its step data; the release signal is sent 1-2 ms after
+// the Execute began, i.e. directly behind the work-start and while the initializer still runs. The
+// step must see the release ("released", as in-process), and the initializer must run exactly once
+// per run (reported under prop C11).
+//
+// Step "nums" returns conforming outputs that hold NaN and infinities (a float field, a float list,
+// an any-typed value); the `bulk`, `reuse` and `init` streams call it.
+//
 // A finding carries the whole session (plugin, calls with inputs, rounds, delays, transport, seed) as
 // its detail; `harness atpsession -replay <finding or session json>` re-runs that session.
 //
@@ -93,6 +108,7 @@ import (
 	"fmt"
 	"hash/fnv"
 	"io"
+	"math"
 	"math/rand"
 	"os"
 	"regexp"
@@ -577,7 +593,63 @@ func atpxBulkPlugin(sleep bool, release <-chan struct{}) *schema.CallableSchema 
 			}
 			return handler(ctx, input)
 		})
+	// "nums": conforming outputs with NaN and infinities
+	numOutputs := map[string]*schema.StepOutputSchema{
+		"numbers": schema.NewStepOutputSchema(schema.NewScopeSchema(schema.NewObjectSchema("Numbers", map[string]*schema.PropertySchema{
+			"tag": atpsProp(schema.NewStringSchema(nil, nil, nil), true),
+			"x":   atpsProp(schema.NewFloatSchema(nil, nil, nil), true),
+			"l":   atpsProp(schema.NewListSchema(schema.NewFloatSchema(nil, nil, nil), nil, nil), true),
+			"a":   atpsProp(schema.NewAnySchema(), false),
+		})), nil, false),
+	}
+	numsStep := schema.NewCallableStep[any]("nums", in(), numOutputs, nil, func(_ context.Context, input any) (string, any) {
+		m, _ := input.(map[string]any)
+		uid, _ := m["uid"].(string)
+		size, _ := m["size"].(int64)
+		special := []float64{math.NaN(), math.Inf(1), math.Inf(-1)}[size%3]
+		return "numbers", map[string]any{"tag": uid, "x": special, "l": []any{1.5, special, math.Inf(-1)}, "a": map[string]any{"v": special, "w": []any{math.NaN()}}}
+	})
+	// "istep": a slow per-run initializer; the release travels in the run's step data
+	type istepData struct {
+		mu       sync.Mutex
+		released chan struct{}
+	}
+	istep := schema.NewCallableStepWithSignals[*istepData, any]("istep", in(), outputs(),
+		map[string]schema.CallableSignal{
+			"rel": schema.NewCallableSignal[*istepData, any]("rel", sigData(), nil, func(_ context.Context, d *istepData, _ any) {
+				if d == nil {
+					return
+				}
+				d.mu.Lock()
+				select {
+				case <-d.released:
+				default:
+					close(d.released)
+				}
+				d.mu.Unlock()
+			}),
+		}, nil, nil, func() *istepData {
+			if sleep {
+				atpxInitCalls.Add(release, 1)
+				time.Sleep(6 * time.Millisecond)
+			}
+			return &istepData{released: make(chan struct{})}
+		}, func(_ context.Context, d *istepData, input any) (string, any) {
+			uid := uidOf(input)
+			tag := "released"
+			if sleep && d != nil {
+				select {
+				case <-d.released:
+				case <-time.After(300 * time.Millisecond):
+					tag = "expired"
+				case <-release:
+					tag = "expired"
+				}
+			}
+			return "success", map[string]any{"tag": tag, "blob": uid}
+		})
 	return schema.NewCallableSchema(
+		numsStep, istep,
 		awaitStep, handStep,
 		schema.NewCallableStep[any]("pat", patIn, outputs(), nil, patHandler),
 		schema.NewCallableStep[any]("opt", optIn, outputs(), nil, optHandler),
@@ -652,7 +724,7 @@ func atpxDupSpec(idx int, rnd *rand.Rand, seed int64) *atpxSpec {
 // atpxRawInputSpec: raw shapes the schema rejects, on a step that would accept the empty object.
 func atpxRawInputSpec(idx int, rnd *rand.Rand, seed int64) *atpxSpec {
 	sp := &atpxSpec{Idx: idx, Stream: "rawinput", Bulk: true, Pattern: []string{"serial", "overlap"}[rnd.Intn(2)],
-		Transport: []string{"pipe", "chunked", "split"}[rnd.Intn(3)], Seed: seed, V1: idx%3 == 0}
+		Transport: []string{"pipe", "chunked", "split"}[rnd.Intn(3)], Seed: seed, V1: idx%3 == 0, CheckText: idx%3 != 0}
 	shapes := []*hx.Val{
 		hx.Nil(),
 		hx.Nil(),
@@ -704,6 +776,8 @@ func atpxPatternSpec(idx int, rnd *rand.Rand, seed int64) *atpxSpec {
 			word = []string{"abc", "pattern", "z"}[rnd.Intn(3)] // accepted
 		case kind < 3:
 			word = "UPPER CASE is rejected, in ASCII, and is longer than sixty-four bytes in total"
+		case kind < 6:
+			word = []string{"%", "%d", "%s%s", "100%", "%!", "%%", "20% off", "%v %+v %#v", "50%d0", "%[1]s"}[rnd.Intn(10)]
 		default:
 			sc := atpxScripts[rnd.Intn(len(atpxScripts))]
 			word = "abc"[:rnd.Intn(4)]
@@ -711,8 +785,18 @@ func atpxPatternSpec(idx int, rnd *rand.Rand, seed int64) *atpxSpec {
 				word += sc
 			}
 		}
-		sp.Calls = append(sp.Calls, atpxCall{RunID: run, Step: "pat",
-			V: hx.StrAny([2]*hx.Val{hx.Str("uid"), hx.Str(run)}, [2]*hx.Val{hx.Str("word"), hx.Str(word)})})
+		call := atpxCall{RunID: run, Step: "pat",
+			V: hx.StrAny([2]*hx.Val{hx.Str("uid"), hx.Str(run)}, [2]*hx.Val{hx.Str("word"), hx.Str(word)})}
+		switch rnd.Intn(12) {
+		case 0: // an unparsable integer that carries a %
+			call.Step = "bulk"
+			call.V = hx.StrAny([2]*hx.Val{hx.Str("uid"), hx.Str(run)}, [2]*hx.Val{hx.Str("size"), hx.Str("10%")})
+		case 1: // an undeclared property whose name carries a %
+			call.V = hx.StrAny([2]*hx.Val{hx.Str("word"), hx.Str("fine")}, [2]*hx.Val{hx.Str("%s-extra"), hx.Int("int64", 1)})
+		case 2: // an unknown step ID that carries a %
+			call.Step = "no%such%step%d"
+		}
+		sp.Calls = append(sp.Calls, call)
 	}
 	return sp
 }
@@ -752,6 +836,28 @@ func atpxAwaitSpec(idx int, rnd *rand.Rand, seed int64) *atpxSpec {
 			}
 			sp.Rounds = append(sp.Rounds, burst)
 		}
+	}
+	return sp
+}
+
+// atpxInitSpec: a slow initializer, the release signal directly behind the work-start.
+func atpxInitSpec(idx int, rnd *rand.Rand, seed int64) *atpxSpec {
+	sp := &atpxSpec{Idx: idx, Stream: "init", Bulk: true, Pattern: "rounds", Transport: []string{"pipe", "chunked", "split"}[rnd.Intn(3)], Seed: seed, CountMode: "atleast"}
+	n := 0
+	for r := 3 + rnd.Intn(4); r > 0; r-- {
+		var round []int
+		for k := 1 + rnd.Intn(4); k > 0; k-- {
+			run := fmt.Sprintf("t%d-%d", idx, n)
+			n++
+			c := atpxCall{RunID: run, Step: "istep", V: atpxBulkInput(run, rnd.Intn(200), 0),
+				Late: []atpxLateSignal{{ID: "rel", DelayUs: 1000 + rnd.Intn(1000)}}}
+			if rnd.Intn(5) == 0 {
+				c = atpxCall{RunID: run, Step: "nums", V: atpxBulkInput(run, rnd.Intn(9), 0)}
+			}
+			round = append(round, len(sp.Calls))
+			sp.Calls = append(sp.Calls, c)
+		}
+		sp.Rounds = append(sp.Rounds, round)
 	}
 	return sp
 }
@@ -894,6 +1000,9 @@ func atpxBulkSpec(idx int, rnd *rand.Rand, seed int64) *atpxSpec {
 				call.Delay = 200 + rnd.Intn(2500)
 			case kind < 45: // 1-8 KB
 				call.V = hx.StrAny([2]*hx.Val{hx.Str("uid"), hx.Str(run)}, [2]*hx.Val{hx.Str("size"), hx.Int("int64", int64(1024+rnd.Intn(7*1024)))})
+			case kind < 52: // NaN and infinities in a conforming output
+				call.Step = "nums"
+				call.V = atpxBulkInput(run, rnd.Intn(9), 0)
 			case kind < 60: // small
 				call.V = hx.StrAny([2]*hx.Val{hx.Str("uid"), hx.Str(run)}, [2]*hx.Val{hx.Str("size"), hx.Int("int64", int64(rnd.Intn(64)))})
 			case kind < 75: // rejected: size is not a number
@@ -939,6 +1048,32 @@ func (g *atpxGenT) input(st atpxStep, uid string) *hx.Val {
 
 // ---------------------------------------------------------------------------------------------
 // expectations
+
+// atpxInitCalls counts the initializer calls of step "istep" per session (keyed by the session's
+// release channel).
+type atpxCounter struct {
+	mu sync.Mutex
+	m  map[<-chan struct{}]int
+}
+
+func (c *atpxCounter) Add(k <-chan struct{}, n int) {
+	c.mu.Lock()
+	if c.m == nil {
+		c.m = map[<-chan struct{}]int{}
+	}
+	c.m[k] += n
+	c.mu.Unlock()
+}
+
+func (c *atpxCounter) Take(k <-chan struct{}) int {
+	c.mu.Lock()
+	defer c.mu.Unlock()
+	n := c.m[k]
+	delete(c.m, k)
+	return n
+}
+
+var atpxInitCalls atpxCounter
 
 // atpxLastErrText: text of the in-process error per (run ID, step), for the streams that check it.
 var atpxLastErrText sync.Map
@@ -998,6 +1133,8 @@ type atpxSessionResult struct {
 	unsent   int
 	refused  int
 	stalls   int
+	excused  int
+	inits    int
 }
 
 func atpxRunSession(sp *atpxSpec, timeout time.Duration) (out atpxSessionResult) {
@@ -1247,8 +1384,10 @@ func atpxRunSession(sp *atpxSpec, timeout time.Duration) (out atpxSessionResult)
 		}
 	}
 	serverNote := ""
+	overtaken := false // a signal reached the server ahead of its work-start and was dropped with a complaint
 	select {
 	case n := <-serverDone:
+		overtaken = n > failing
 		switch sp.CountMode {
 		case "skip": // refused calls never reach the server
 		case "atleast": // signals that overtake their work-start draw an extra, non-fatal complaint
@@ -1287,7 +1426,14 @@ func atpxRunSession(sp *atpxSpec, timeout time.Duration) (out atpxSessionResult)
 		}
 		if sp.CheckText && got == want && want.Err && !unsent[i] && r.Error != nil {
 			if t, ok := atpxLastErrText.Load(calls[i].RunID + "\x00" + calls[i].Step); ok {
-				if want := t.(string); !strings.Contains(r.Error.Error(), want) {
+				want := t.(string)
+				// the list of declared property names in "Invalid parameter 'x', expected one of: ..." follows
+				// Go's map order: compare up to it
+				if k := strings.Index(want, ", expected one of:"); k >= 0 {
+					want = want[:k]
+				}
+				// with several required properties missing, which one is named first follows map order too
+				if !strings.Contains(want, "This field is required") && !strings.Contains(r.Error.Error(), want) {
 					find("Execute %d (run %s, step %s) returned an error that does not carry the step's own error text: got %q, in-process CallStep says %q",
 						i, calls[i].RunID, calls[i].Step, atpxShort(r.Error.Error()), atpxShort(want))
 				}
@@ -1299,6 +1445,10 @@ func atpxRunSession(sp *atpxSpec, timeout time.Duration) (out atpxSessionResult)
 		}
 		if got == want && !want.Err {
 			ownResult[calls[i].RunID] = true
+		}
+		if got != want && sp.Stream == "init" && overtaken && calls[i].Step == "istep" && !got.Err {
+			out.excused++
+			continue // its release was dropped before the run existed: giving up is what in-process would do too
 		}
 		if got != want {
 			what := "differs from the in-process result"
@@ -1336,6 +1486,18 @@ func atpxRunSession(sp *atpxSpec, timeout time.Duration) (out atpxSessionResult)
 	if slow != nil {
 		out.stalls = slow.writes
 	}
+	if sp.Stream == "init" {
+		runs := 0
+		for i := 0; i < stopAt; i++ {
+			if calls[i].Step == "istep" && !expected[i].Err {
+				runs++
+			}
+		}
+		out.inits = atpxInitCalls.Take(sp.release)
+		if out.inits != runs {
+			find("[C11] the per-run initializer of step \"istep\" ran %d times for %d runs (a run's step and its signals must share one step data record, created once)", out.inits, runs)
+		}
+	}
 	if serverNote != "" {
 		// after the per-Execute differences, which say more
 		find("%s", serverNote)
@@ -1347,8 +1509,20 @@ func atpxRunSession(sp *atpxSpec, timeout time.Duration) (out atpxSessionResult)
 		out.pieces = split.pieces
 	}
 	if len(out.findings) > 4 {
-		more := len(out.findings) - 4
-		out.findings = append(out.findings[:4], fmt.Sprintf("... and %d more differences in the same session", more))
+		// the first four, and whatever belongs to another property
+		var kept, other []string
+		for _, f := range out.findings {
+			if strings.HasPrefix(f, "[C11] ") {
+				other = append(other, f)
+			} else {
+				kept = append(kept, f)
+			}
+		}
+		if len(kept) > 4 {
+			more := len(kept) - 4
+			kept = append(kept[:4], fmt.Sprintf("... and %d more differences in the same session", more))
+		}
+		out.findings = append(kept, other...)
 	}
 	return out
 }
@@ -1547,9 +1721,12 @@ func atpxCmd(a Args) {
 	for i := 0; i < nStepID; i++ {
 		jobs = append(jobs, atpxStepIDSpec(base+nRaw+nBlank+nPat+i, brnd, a.Seed*9000067+int64(i)))
 	}
-	nAwait := 24
+	nAwait, nInit := 24, 24
 	if thorough {
-		nAwait = 300
+		nAwait, nInit = 300, 300
+	}
+	for i := 0; i < nInit; i++ {
+		jobs = append(jobs, atpxInitSpec(base+nRaw+nBlank+nPat+nStepID+nAwait+i, brnd, a.Seed*9700111+int64(i)))
 	}
 	for i := 0; i < nAwait; i++ {
 		jobs = append(jobs, atpxAwaitSpec(base+nRaw+nBlank+nPat+nStepID+i, brnd, a.Seed*9500093+int64(i)))
@@ -1576,7 +1753,7 @@ func atpxCmd(a Args) {
 			if j.Stream == "bulk" {
 				timeout = 5 * time.Second
 			}
-			if j.Stream == "dup" || j.Stream == "signal" || j.Stream == "blank" || j.Stream == "rawinput" || j.Stream == "pattern" || j.Stream == "stepid" || j.Stream == "await" {
+			if j.Stream == "dup" || j.Stream == "signal" || j.Stream == "blank" || j.Stream == "rawinput" || j.Stream == "pattern" || j.Stream == "stepid" || j.Stream == "await" || j.Stream == "init" {
 				timeout = 4 * time.Second
 			}
 			results[ji] = atpxRunSession(j, timeout)
@@ -1602,7 +1779,9 @@ func atpxCmd(a Args) {
 		if j.Stream == "bulk" {
 			s.stats["bulk:executes"] += r.calls
 			s.stats["bulk:rounds"] += len(j.Rounds)
-		} else if j.Stream == "rawinput" || j.Stream == "blank" || j.Stream == "pattern" || j.Stream == "stepid" || j.Stream == "await" {
+		} else if j.Stream == "rawinput" || j.Stream == "blank" || j.Stream == "pattern" || j.Stream == "stepid" || j.Stream == "await" || j.Stream == "init" {
+			s.stats["init:initializer-calls"] += r.inits
+			s.stats["init:excused-overtaken"] += r.excused
 			s.stats[j.Stream+":executes"] += r.calls
 		} else if j.Stream == "dup" {
 			s.stats["dup:executes"] += r.calls
@@ -1618,7 +1797,11 @@ func atpxCmd(a Args) {
 		}
 		for _, f := range r.findings {
 			desc, _ := json.Marshal(j)
-			s.finding(Finding{Prop: "C05", What: f, Cases: []int{}, Detail: []string{string(desc)}})
+			prop := "C05"
+			if strings.HasPrefix(f, "[C11] ") {
+				prop, f = "C11", strings.TrimPrefix(f, "[C11] ")
+			}
+			s.finding(Finding{Prop: prop, What: f, Cases: []int{}, Detail: []string{string(desc)}})
 		}
 	}
 	keys := make([]string, 0)
